@@ -81,6 +81,9 @@ type Thread struct {
 	started bool
 	Daemon  bool
 	yielded bool
+	runLen  int  // steps taken since this thread was last switched in
+	hogCnt  int  // busy-poll hints since it was last switched in (see HogHint)
+	forced  bool // resumed from a yield although nobody else made progress; cleared by its next write
 	pend    pendOp
 	h       uint64
 	spawns  uint64
@@ -169,14 +172,44 @@ type Exec struct {
 	Trace   []string
 	fp      uint64 // fingerprint of the run (thread,kind sequence) for determinism checks
 
-	cleanups []func()
-	Locals   [8]interface{} // per-execution storage for shims/harness (slots by convention)
-	epoch    uint64         // bumped on every kernel step: readiness probe cache key
-	Blocked  []string       // filled at end: description of blocked threads
-	closed   *ptrSet
+	cleanups      []func()
+	Locals        [8]interface{} // per-execution storage for shims/harness (slots by convention)
+	epoch         uint64         // bumped on every kernel step: readiness probe cache key
+	Blocked       []string       // filled at end: description of blocked threads
+	closed        *ptrSet
+	HorizonUnfair bool
 }
 
 var cur *Exec
+
+// fairLimit: see schedule.
+const fairLimit = 2000
+
+// hogLimit: a thread that issued this many non-blocking polls in a row without being
+// switched out is busy-waiting for somebody else (e.g. the poller re-fetching a
+// level-triggered event whose descriptor another thread is about to deregister).
+const hogLimit = 3
+
+// HogHint is called by the syscall shim for every non-blocking poll (epoll_wait with
+// timeout 0); it reports true when the thread should yield (the caller then calls Yield).
+//
+//go:norace
+func HogHint(reset bool) bool {
+	ex := cur
+	if ex == nil || ex.running == nil {
+		return false
+	}
+	if reset {
+		ex.running.hogCnt = 0
+		return false
+	}
+	ex.running.hogCnt++
+	if ex.running.hogCnt >= hogLimit {
+		ex.running.hogCnt = 0
+		return true
+	}
+	return false
+}
 
 // Cur returns the active execution or nil (passthrough mode).
 //
@@ -222,6 +255,9 @@ func (ex *Exec) thrKey(t *Thread) uint64 {
 	}
 	if t.yielded {
 		f |= 2
+	}
+	if t.forced {
+		f |= 4
 	}
 	return mix3(t.nameH, t.h, f)
 }
@@ -286,7 +322,6 @@ func (ex *Exec) onExit(t *Thread) {
 	t.done = true
 	t.h = mix3(t.h, 0xdead, 0)
 	ex.thrSum += ex.thrKey(t)
-	ex.progress(t)
 	if ex.TraceOn {
 		ex.Trace = append(ex.Trace, fmt.Sprintf("T%d(%s) exit", t.ID, t.Name))
 	}
@@ -540,7 +575,11 @@ func (ex *Exec) schedule(me *Thread) {
 		opts := optsBuf[:0]
 		// canonical order: running thread first if enabled, then ascending ids, then timers
 		meEnabled := me != nil && ex.enabled(me)
-		if meEnabled {
+		// fairness: a thread that has run fairLimit steps in a row while others could
+		// run is treated as if it had yielded (busy loops such as the poller's
+		// epoll_wait(0) loop contain no runtime.Gosched); switching away is then free.
+		hog := meEnabled && me.runLen >= fairLimit
+		if meEnabled && !hog {
 			opts = append(opts, int32(me.ID))
 		}
 		for _, t := range ex.threads {
@@ -549,6 +588,48 @@ func (ex *Exec) schedule(me *Thread) {
 			}
 			if ex.enabled(t) {
 				opts = append(opts, int32(t.ID))
+			}
+		}
+		if hog {
+			if len(opts) == 0 {
+				opts = append(opts, int32(me.ID))
+			} else {
+				meEnabled = false
+			}
+		}
+		if len(opts) == 0 {
+			// nobody can run: a thread that yielded politely (runtime.Gosched without
+			// waiting for anybody) simply continues; one that was already resumed this
+			// way and has changed nothing since is spinning on a condition nobody can
+			// make true (livelock unless a timer fires).
+			for _, t := range ex.threads {
+				if !t.done && t.pend.kind == KYield && t.yielded && !t.forced {
+					opts = append(opts, int32(t.ID))
+				}
+			}
+			if len(opts) > 0 {
+				pick := 0
+				if len(opts) > 1 {
+					var cb [16]uint8
+					pick = ex.choose(false, cb[:len(opts)])
+				}
+				t := ex.threads[opts[pick]]
+				ex.thrSum -= ex.thrKey(t)
+				t.yielded = false
+				t.forced = true
+				ex.thrSum += ex.thrKey(t)
+				if t == me {
+					return
+				}
+				ex.running = t
+				unpark(t)
+				if me != nil {
+					park(me)
+					if ex.aborting {
+						panic(AbortSentinel)
+					}
+				}
+				return
 			}
 		}
 		nThreads := len(opts)
@@ -610,6 +691,8 @@ func (ex *Exec) schedule(me *Thread) {
 		if t == me {
 			return
 		}
+		t.runLen = 0
+		t.hogCnt = 0
 		ex.running = t
 		unpark(t)
 		if me != nil {
@@ -746,8 +829,17 @@ func (ex *Exec) progress(t *Thread) {
 //go:norace
 func (ex *Exec) commit(t *Thread) {
 	ex.Steps++
+	t.runLen++
 	op := &t.pend
 	if ex.Steps > ex.horizon {
+		// an unfair schedule (someone else could run but the default schedule keeps
+		// choosing a busy loop) is inconclusive; a thread looping while nobody else
+		// can ever run is genuine non-termination.
+		for _, o := range ex.threads {
+			if o != t && ex.enabled(o) {
+				ex.HorizonUnfair = true
+			}
+		}
 		ex.finish(EndHorizon, fmt.Sprintf("T%d(%s) at %s:%s", t.ID, t.Name, op.kind, op.what))
 		panic(AbortSentinel)
 	}
@@ -798,6 +890,11 @@ func (ex *Exec) commit(t *Thread) {
 	}
 	if op.write {
 		ex.progress(t)
+		if t.forced {
+			ex.thrSum -= ex.thrKey(t)
+			t.forced = false
+			ex.thrSum += ex.thrKey(t)
+		}
 	}
 	if ex.TraceOn {
 		rw := "r"
